@@ -200,7 +200,8 @@ PROPS = {
                           "connections compared with the clean input by the solver (symbolic policy range); severe errors counted",
                           "ConnlistFromDirPath / file scanning; more than 2 bad documents", models=40)),
             dict(pkg=DIFF, harness="harness/diff", shared="harness/shared", extra=[["pkg/netpol/connlist", "harness/extra_connlist"]],
-                 quick=ev("^ZZ_C13_", "ConnDiffFromResourceInfos on two good inputs (symbolic policy ranges) plus <=1 (thorough: <=2) bad documents of 3 kinds in either input at either end, "
+                 quick=ev("^ZZ_C13_", "ConnDiffFromDirPaths (scanner stub; natively real files) with a syntactically broken file in the first and/or second directory at every position, stop-on-first-error on/off: one severe error per broken file attributed to its own directory, same diff as the clean directories; "
+                          "ConnDiffFromResourceInfos on two good inputs (symbolic policy ranges) plus <=1 (thorough: <=2) bad documents of 3 kinds in either input at either end, "
                           "optionally a document causing a fatal error (ipBlock that is not a CIDR) at the end of either input, stopOnError on/off; diff rows compared with the clean diff by the solver; "
                           "severe errors counted; fatal => error and no result",
                           "ConnDiffFromDirPaths / file scanning", models=40)),
